@@ -19,7 +19,7 @@ ID = 'C08'
 LEVEL = 'fault_enumeration'
 RULE = ('negative half: the well-formed documents of the annotated generator (see C03) - stderr must be empty and the mark absent; '
         'positive half: Hypothesis draws (prefix document, fault kind, fault text, rest document) with fault kinds {open inline maths $ \\(, open displayed maths \\[ $$ equation/align, '
-        'mandatory or optional argument of a declared macro open at end of text, \\verb without closing delimiter, verbatim without end, LT-SKIP-BEGIN without END, accent on a non-letter, '
+        'mandatory or optional argument of a declared macro open at end of text (also inside inline / displayed maths), displayed-maths faults also with the simple-equations option, \\verb without closing delimiter, verbatim without end, LT-SKIP-BEGIN without END, accent on a non-letter, '
         '\\LTinput of a missing or undecodable file}; optionally an \\LTinput of an empty / comment-only file in front, also with the fault within the last 14 characters of the text; oracle: exact line/column in the diagnostic, complete mark, mark mapped to the fault offset, '
         'all later words present in order with exact positions, mark iff diagnostic. '
         'non-trivial = positive case whose fault is not at offset 0 and that has at least one word behind the faulty construct; distinct by source text')
@@ -43,6 +43,8 @@ fault = st.one_of(
     st.tuples(st.just('dmath'), st.sampled_from(['\\[', '$$', '\\begin{equation}', '\\begin{align}', '\\begin{eqnarray*}']),
               st.sampled_from(['x', 'a &= b \\\\ c &= d', 'x.', '']), plainwords),
     st.tuples(st.just('arg'), st.sampled_from(OPEN_ARG)),
+    st.tuples(st.just('arg-in-maths'), st.sampled_from(['$', '\\[', '\\begin{align}']), st.sampled_from(['\\textcolor{KEY}{', '\\zzone{', '\\colorbox{KEY}{', '\\zzpair{x}{']),
+              st.sampled_from(['x', 'a + b', 'x \\] y', 'x$ y', 'a &= b'])),
     st.tuples(st.just('opt'), st.sampled_from(OPEN_OPT), plainwords),
     st.tuples(st.just('verb'), st.sampled_from('|+!'), st.text(alphabet='ab {}%$', max_size=5)),
     st.tuples(st.just('verbatim'), st.sampled_from(['', ' ', '\n'])),
@@ -83,12 +85,21 @@ def build(case, flags):
         docgen.emit_sep(m, sep)
     info = {'kind': kind}
     para_needed = False
+    if kind == 'dmath':
+        info['seqs'] = (len(m.source()) + len(flt[2])) % 3 == 0
     if kind in ('imath', 'dmath'):
         info['off'] = m.emit(flt[1])
         m.emit(' ' + flt[2] if flt[2] else '')
         for w in flt[3]:
             m.emit(' ' + m.word())
         para_needed = True
+    elif kind == 'arg-in-maths':
+        m.emit(flt[1] + ' a + ')
+        docgen.fill(m, flt[2][:-1])
+        info['off'] = m.emit('{')
+        m.emit(flt[3])
+        rest = []
+        info['seqs'] = len(m.source()) % 3 == 0
     elif kind == 'arg':
         parts = flt[1]
         docgen.fill(m, parts[:-1])
@@ -141,15 +152,15 @@ def check(case, flags, stats=None):
     off = info['off']
     rc = {'src': src, 'case': None}
     try:
-        plain, pos, err = docprop.run_source(src)
+        plain, pos, err = docprop.run_source(src, seqs=bool(info.get('seqs')))
     except Exception as e:
         raise Violation('exception:' + sut_frame(e), rc, repr(e))
-    det = {'plain': plain, 'stderr': err, 'fault_kind': info['kind'], 'fault_offset_1based': off + 1}
+    det = {'plain': plain, 'stderr': err, 'fault_kind': info['kind'], 'fault_offset_1based': off + 1, 'simple_equations': bool(info.get('seqs'))}
     diags = [l for l in err.splitlines() if l.startswith('*** LaTeX error:')]
     # the problem position: exactly the opening delimiter, except for displayed maths with several
     # rows / sections, where any position inside the open equation is accepted (the statement only
     # requires diagnostic and mark to agree and to point at the problem)
-    multi = info['kind'] == 'dmath' and ('&' in src[off:info['span_end']] or '\\\\' in src[off:info['span_end']])
+    multi = info['kind'] in ('dmath',) and ('&' in src[off:info['span_end']] or '\\\\' in src[off:info['span_end']])
     cand = [off] if not multi else list(range(off, info['span_end'] + 1))
     found = None
     for o in cand:
